@@ -113,6 +113,17 @@ func vh15Corpus() [][]vhsrvReq {
 		{v, at, w(0, 1, "d1"), {T: "Tunlinkat", N: []uint64{1, 0}, S: vhsrvH("f1"), FaultAns: pan}, {T: "Tmkdir", N: []uint64{1, 0o755, 0}, S: vhsrvH("d2")},
 			{T: "Tlcreate", N: []uint64{1, 2, 0o644, 0}, S: vhsrvH("f3"), FaultAns: pan}, w(0, 2, "d1"), {T: "Tmkdir", N: []uint64{2, 0o755, 0}, S: vhsrvH("d3")},
 			{T: "Trenameat", N: []uint64{2, 0}, S: vhsrvH("f1", "f2"), FaultAns: pan}, {T: "Trenameat", N: []uint64{2, 0}, S: vhsrvH("f1", "f2")}, {T: "Tsetattr", N: []uint64{2, 1}}},
+		// an ERROR (not a panic) in UnlinkAt / RenameAt / Mkdir / Link while other fids are bound to the entry or below it; afterwards
+		// those fids and paths are used again: "only that request is affected" (nothing is fenced, moved or unbound by a refused call)
+		{v, at, w(0, 1, "d1"), w(1, 2, "f1"), w(2, 3), {T: "Tunlinkat", N: []uint64{1, 0}, S: vhsrvH("f1"), FaultAns: &vhsrvAns{Err: []vhsrvLeaf{{"L", 39}}}},
+			{T: "Tgetattr", N: []uint64{2, 1}}, {T: "Tgetattr", N: []uint64{3, 1}}, w(2, 4), {T: "Tsetattr", N: []uint64{4, 1}}, w(1, 5, "f1"), {T: "Tlopen", N: []uint64{2, 0}},
+			{T: "Tunlinkat", N: []uint64{1, 0}, S: vhsrvH("f1")}, {T: "Tgetattr", N: []uint64{3, 1}}, {T: "Tclunk", N: []uint64{2}}},
+		{v, at, w(0, 1, "d1"), w(1, 2, "f1"), {T: "Tunlinkat", N: []uint64{0, 0x200}, S: vhsrvH("d1"), FaultAns: &vhsrvAns{Err: []vhsrvLeaf{{"S", 39}}}},
+			{T: "Tgetattr", N: []uint64{1, 1}}, {T: "Tgetattr", N: []uint64{2, 1}}, w(1, 3, "f2"), {T: "Tmkdir", N: []uint64{1, 0o755, 0}, S: vhsrvH("d9")}, w(0, 4, "d1", "f1")},
+		{v, at, w(0, 1, "d1"), w(1, 2, "f1"), w(0, 3, "d2"), {T: "Trenameat", N: []uint64{0, 0}, S: vhsrvH("d1", "d2"), FaultAns: &vhsrvAns{Err: []vhsrvLeaf{{"L", 39}}}},
+			{T: "Tgetattr", N: []uint64{1, 1}}, {T: "Tgetattr", N: []uint64{2, 1}}, {T: "Tgetattr", N: []uint64{3, 1}}, w(3, 4, "f2"), w(0, 5, "d1", "f1"),
+			{T: "Trenameat", N: []uint64{1, 0}, S: vhsrvH("f1", "f3"), FaultAns: &vhsrvAns{Err: []vhsrvLeaf{{"OP", 0}, {"L", 13}}}}, {T: "Tgetattr", N: []uint64{2, 1}}, w(1, 6, "f1"),
+			{T: "Trename", N: []uint64{2, 3}, S: vhsrvH("f9"), FaultAns: &vhsrvAns{Err: []vhsrvLeaf{{"L", 18}}}}, {T: "Tgetattr", N: []uint64{2, 1}}, w(1, 7, "f1"), {T: "Tremove", N: []uint64{2}}},
 		// Tclunk of a fid with a pending xattr create: SetXattr / RemoveXattr fails or panics, or the Close that follows
 		// fails too -- "Tclunk still unbinds": the fid is gone afterwards (EBADF), its File closed
 		{v, at, w(0, 1, "f1"), {T: "Txattrcreate", N: []uint64{1, 3, 0}, S: vhsrvH("user.a")}, {T: "Twrite", N: []uint64{1, 0, 3}},
